@@ -518,12 +518,24 @@ def extra_cases(rng, tier):
         if len(cases) >= n:
             break
     yield "C07", cases
+    # the same service with several protocols, keep-alive downgrades and overlapping connections (C09's area): a
+    # downgraded secondary connection is still a live connection for the event grammar
+    from . import c09
+    k = {"quick": 250, "thorough": 4000, "search": 500}[tier]
+    yield "C09", list(itertools.islice(c09.gen_cases(rng, "quick" if tier != "thorough" else "search"), k))
 
 
 def oracle_extra(xpid, case, out):
+    if xpid == "C09":
+        from . import c09
+        return [dict(v, msg="(keep-alive service, C09 area) " + v["msg"]) for v in c09.oracle(case, out)
+                if v.get("kind") == "panic" or "panic" in str(v.get("msg", ""))]
     from . import c07
     return [dict(v, msg="(ProtocolSet ordering, C07 area) " + v["msg"]) for v in c07.oracle(case, out)]
 
 
 def stats_extra(xpid, case, out, acc):
+    if xpid == "C09":
+        bump(acc, "extra:C09")
+        return
     bump(acc, "extra:C07:" + ("s2" if case and case[0].startswith("s2") else "s1"))
